@@ -4,6 +4,30 @@ Break recipes break one necessary condition each; neutral recipes are behaviour-
 OP2 = "pyyeti/nastran/op2.py"
 OP4 = "pyyeti/nastran/op4.py"
 
+# ---- texts of /repo used by several recipes of the second pass
+_SKIPREC = "        key = self._getkey()\n        while key > 0:\n            reclen = self._Str4.unpack(self._fileh.read(4))[0]\n            self._fileh.seek(reclen + 4, 1)\n            key = self._getkey()\n        self._skipkey(2)\n"
+_SKIPREC_WALRUS = "        while (key := self._getkey()) > 0:\n            reclen = self._Str4.unpack(self._fileh.read(4))[0]\n            self._fileh.seek(@SEEK@, 1)\n        self._skipkey(2)\n"
+_SKIPREC_MIDDLE = "        while True:\n            key = self._getkey()\n            if key <= 0:\n                break\n            reclen = self._Str4.unpack(self._fileh.read(4))[0]\n            self._fileh.seek(@SEEK@, 1)\n        self._skipkey(2)\n"
+_SKIPMAT_TAIL = "            self._getkey()\n            dtype = self._getkey()\n        self.rdop2eot()\n\n    def skipop2table"
+_SKIPMAT = "        dtype = 1\n        while dtype > 0:  # read in matrix columns\n            # key is number of elements in next record (row # followed\n            # by key-1 real numbers)\n            key = self._getkey()\n            # skip column\n            while key > 0:\n                reclen = self._Str4.unpack(self._fileh.read(4))[0]\n                self._fileh.seek(reclen, 1)\n                self._fileh.read(4)  # endrec\n                key = self._getkey()\n            self._getkey()\n            dtype = self._getkey()\n        self.rdop2eot()\n"
+_SKIPMAT_DO = "        while True:  # read in matrix columns\n            key = self._getkey()\n            # skip column\n            while key > 0:\n                reclen = self._Str4.unpack(self._fileh.read(4))[0]\n                self._fileh.seek(reclen, 1)\n                self._fileh.read(4)  # endrec\n                key = self._getkey()\n@TRAIL@            dtype = self._getkey()\n            if dtype <= 0:\n                break\n        self.rdop2eot()\n"
+_SKIP_DENSE = "                elems = int(line[e_slice])\n                nlines = (elems + perline - 1) // perline\n                for _ in it.repeat(None, nlines):\n                    self._fileh.readline()\n                line = self._fileh.readline()\n                c = int(line[c_slice]) - 1\n        elif bigmat:"
+_NB_BIN = "                L = (IS >> 16) - 1  # L\n                r = IS - ((L + 1) << 16) - 1  # irow-1\n                nwords -= L + 1  # words left\n"
+_NB_ASC = "                L = (IS >> 16) - 1  # L\n                r = IS - ((L + 1) << 16) - 1  # irow-1\n                elems -= L + 1\n"
+_GETKEY = "        self._fileh.read(4)\n        key = self._Str.unpack(self._fileh.read(self._ibytes))[0]\n        self._fileh.read(4)\n        return key\n"
+_SKIPKEY = "    def _skipkey(self, n):\n        \"\"\"Skips `n` key triplets ([reclen, key, endrec]).\"\"\"\n        self._fileh.read(n * (8 + self._ibytes))\n"
+_SKIPKEY_PROP = "    @property\n    def _keysize(self):\n        \"\"\"Number of bytes in a [reclen, key, endrec] triplet.\"\"\"\n        return @SIZE@\n\n    def _skipkey(self, n):\n        \"\"\"Skips `n` key triplets ([reclen, key, endrec]).\"\"\"\n        self._fileh.read(n * self._keysize)\n"
+_DENSE_BIN_LOOP = "        cutoff, s3, b3, s4 = self._get_cutoff_etc()\n        while c < cols:\n            r -= 1\n            nwords //= wper\n            if nwords < cutoff:\n                Y = struct.unpack(numform % nwords, fp.read(bytesreal * nwords))\n            else:\n                Y = np.fromfile(fp, numform2, nwords)\n            put(X, r, c, Y)\n            fp.read(4)\n            reclen = s4(fp.read(4))[0]\n            c, r, nwords = s3(fp.read(b3))\n            c -= 1\n        return retrn(rows, cols, X), reclen\n\n    def _rd_bigmat_binary"
+_DENSE_BIN_LOCAL = "        cutoff, s3, b3, s4 = self._get_cutoff_etc()\n\n        def next_head():\n@MARK@            reclen = s4(fp.read(4))[0]\n            icol, irow, nw = s3(fp.read(b3))\n            return reclen, icol - 1, irow, nw\n\n        while c < cols:\n            r -= 1\n            nwords //= wper\n            if nwords < cutoff:\n                Y = struct.unpack(numform % nwords, fp.read(bytesreal * nwords))\n            else:\n                Y = np.fromfile(fp, numform2, nwords)\n            put(X, r, c, Y)\n            reclen, c, r, nwords = next_head()\n        return retrn(rows, cols, X), reclen\n\n    def _rd_bigmat_binary"
+_SKIPBIN_BODY = "        while icol <= cols:\n            # Read record length at start of record:\n            reclen = self._Str_i4.unpack(self._fileh.read(4))[0]\n            # Read column header\n            icol = self._Str_i.unpack(self._fileh.read(bi))[0]\n            self._fileh.seek(reclen + delta, 1)\n"
+_SKIPBIN_LAMBDA = "        word = lambda S, n: S.unpack(self._fileh.read(n))[0]  # noqa: E731\n        while icol <= cols:\n            reclen = word(self._Str_i4, 4)\n            icol = word(self._Str_i, @N@)\n            self._fileh.seek(reclen + delta, 1)\n"
+_ASCII_CALL = "        rdfunc, funcs = self._get_funcs(\"ascii\", rows, r, mtype, sparse, c >= cols)\n        X = rdfunc(wper, r, c, abs(rows), cols, line, numlen, perline, linelen, funcs)\n"
+_ASCII_DIRECT = "        nocols = c >= cols\n        _rdfunc, funcs = self._get_funcs(\"ascii\", rows, r, mtype, sparse, nocols)\n        args = (wper, r, c, abs(rows), cols, line, numlen, perline, linelen, funcs)\n        if @DENSE@ and not (nocols and rows < 0):\n            X = self._rd_dense_ascii(*args)\n        elif r <= 0 and 0 <= rows < self._rows4bigmat:\n            X = self._rd_nonbigmat_ascii(*args)\n        else:\n            X = self._rd_bigmat_ascii(*args)\n"
+_BIN_SCAN = "            fp.read(4)\n            if patternlist and name not in patternlist:\n                skip = 1\n            else:\n                skip = 0\n            if listonly or skip:\n                self._skipop4_binary(cols)\n                if listonly:\n                    return name, (abs(rows), cols), form, mtype\n            else:\n                break\n"
+_BIN_SCAN_CONT = "            fp.read(4)\n            if listonly:\n                self._skipop4_binary(cols)\n                return name, (abs(rows), cols), form, mtype\n            if patternlist and name not in patternlist:\n@SKIP@                continue\n            break\n"
+_REC_LOOPS = "        if N:\n            data = np.empty(N, dtype=frm)\n            i = 0\n            while key > 0:\n                reclen = self._Str4.unpack(f.read(4))[0]\n                # f.read(4)  # reclen\n                n = reclen // bytes_per\n                if n < self._rowsCutoff:\n                    b = n * bytes_per\n                    data[i : i + n] = struct.unpack(frmu % n, f.read(b))\n                else:\n                    data[i : i + n] = np.fromfile(f, frm, n)\n                i += n\n                f.read(4)  # endrec\n                key = self._getkey()\n        else:\n            data = []\n            while key > 0:\n                reclen = self._Str4.unpack(f.read(4))[0]\n                # f.read(4)  # reclen\n                n = reclen // bytes_per\n                if n < self._rowsCutoff:\n                    b = n * bytes_per\n                    cur = struct.unpack(frmu % n, f.read(b))\n                else:\n                    cur = np.fromfile(f, frm, n)\n                data.extend(cur)\n                # data = np.hstack((data, cur))\n                f.read(4)  # endrec\n                key = self._getkey()\n            data = np.array(data, dtype=frm)\n        self._skipkey(2)\n        return data\n"
+_REC_FUSED = "        if N:\n            data = np.empty(N, dtype=frm)\n        else:\n            parts = []\n        i = 0\n        while key > 0:\n            reclen = self._Str4.unpack(f.read(4))[0]\n            n = reclen // bytes_per\n            if n < self._rowsCutoff:\n                cur = struct.unpack(frmu % n, f.read(n * bytes_per))\n            else:\n                cur = np.fromfile(f, frm, n)\n            if N:\n                data[i : i + n] = cur\n                i += @STEP@\n            else:\n                parts.extend(cur)\n            f.read(4)  # endrec\n            key = self._getkey()\n        if not N:\n            data = np.array(parts, dtype=frm)\n        self._skipkey(2)\n        return data\n"
+
 RECIPES = [
     # ------------------------------------------------------------------ break: decode sizes (R2)
     ("C11", "break", ["C11-R2"], OP2, "        hbytes = 3 * self._ibytes\n", "        hbytes = 12\n", "DYNAMICS header read with a fixed 12 bytes (wrong with 64-bit keys)"),
@@ -111,4 +135,50 @@ RECIPES = [
     ("C11", "neutral", [], OP4, "            if nwords < cutoff:\n", "            if nwords <= cutoff:\n", "_rd_dense_binary: which route decodes exactly `cutoff` values is immaterial"),
     ("C11", "neutral", [], OP4, "        cutoff, s3, b3, s4 = self._get_cutoff_etc()\n        s1, b1 = self._get_s1()\n", "        cutoff = self._rowsCutoff\n        s3, b3 = self._Str_iii.unpack, self._bytes_iii\n        s4 = self._Str_i4.unpack\n        s1, b1 = self._Str_i.unpack, self._bytes_i\n",
      "_rd_nonbigmat_binary: getters inlined"),
+
+    # ================================================================== second hardening pass: new forms the evaluator understands, each with a
+    # behaviour-preserving variant (must stay silent) and the same form with a defect inside (must be reported)
+    # ------------------------------------------------------------------ loop test that reads (walrus)
+    ("C11", "neutral", [], OP2, _SKIPREC, _SKIPREC_WALRUS.replace("@SEEK@", "reclen + 4"), "skipop2record: the next key read in the loop test (walrus)"),
+    ("C11", "break", ["C11-R4"], OP2, _SKIPREC, _SKIPREC_WALRUS.replace("@SEEK@", "reclen"), "skipop2record (walrus loop): end marker not skipped"),
+    # ------------------------------------------------------------------ loop with its exit in the middle (rotated)
+    ("C11", "neutral", [], OP2, _SKIPREC, _SKIPREC_MIDDLE.replace("@SEEK@", "reclen + 4"), "skipop2record: while True / read key / break / skip"),
+    ("C11", "break", ["C11-R4"], OP2, _SKIPREC, _SKIPREC_MIDDLE.replace("@SEEK@", "reclen + 8"), "skipop2record (exit in the middle): 4 bytes too many per record"),
+    # ------------------------------------------------------------------ loop tested at its end
+    ("C11", "neutral", [], OP2, _SKIPMAT_TAIL, "            self._getkey()\n            dtype = self._getkey()\n            if dtype <= 0:\n                break\n        self.rdop2eot()\n\n    def skipop2table", "skipop2matrix: column loop left by a break at its end (plus the original test)"),
+    ("C11", "neutral", [], OP2, _SKIPMAT, _SKIPMAT_DO.replace("@TRAIL@", "            self._getkey()\n"), "skipop2matrix: while True ... if dtype <= 0: break"),
+    ("C11", "break", ["C11-R4"], OP2, _SKIPMAT, _SKIPMAT_DO.replace("@TRAIL@", ""), "skipop2matrix (tested at its end): one trailing key per column instead of two"),
+    # ------------------------------------------------------------------ floor-division identities
+    ("C11", "neutral", [], OP4, _SKIP_DENSE, _SKIP_DENSE.replace("(elems + perline - 1) // perline", "-(-elems // perline)"), "_skipop4_ascii (dense): ceil written -(-n // p)"),
+    ("C11", "break", ["C11-R4"], OP4, _SKIP_DENSE, _SKIP_DENSE.replace("(elems + perline - 1) // perline", "-(elems // perline)"), "_skipop4_ascii (dense): -(n // p), a sign slip of the ceil idiom"),
+    ("C11", "neutral", [], OP4, "        fh = self._fileh\n        nlines = (L - 1) // perline + 1\n", "        fh = self._fileh\n        nlines = -(-L // perline)\n", "_get_ascii_block: ceil written -(-L // p)"),
+    ("C11", "neutral", [], OP4, _NB_BIN, "                r = IS % 65536 - 1  # irow-1\n                L = (IS - (r + 1)) // 65536 - 1  # L\n                nwords -= L + 1  # words left\n", "_rd_nonbigmat_binary: % and // 65536"),
+    ("C11", "break", ["C11-R3"], OP4, _NB_BIN, "                r = IS % 32768 - 1  # irow-1\n                L = IS // 65536 - 1  # L\n                nwords -= L + 1  # words left\n", "_rd_nonbigmat_binary: row taken modulo 2**15"),
+    ("C11", "neutral", [], OP4, _NB_ASC, "                L, r = divmod(IS, 65536)\n                L -= 1\n                r -= 1\n                elems -= L + 1\n", "_rd_nonbigmat_ascii: divmod"),
+    ("C11", "break", ["C11-R3"], OP4, _NB_ASC, "                L, r = divmod(IS, 65536)\n                L -= 1\n                elems -= L + 1\n", "_rd_nonbigmat_ascii: divmod, row not made 0-based"),
+    # ------------------------------------------------------------------ one read, slices of it decoded
+    ("C11", "neutral", [], OP2, _GETKEY, "        triplet = self._fileh.read(8 + self._ibytes)\n        return self._Str.unpack(triplet[4 : 4 + self._ibytes])[0]\n", "_getkey: one read, the key sliced out"),
+    ("C11", "neutral", [], OP2, _GETKEY, "        triplet = self._fileh.read(8 + self._ibytes)\n        return self._Str.unpack(triplet[4:-4])[0]\n", "_getkey: one read, negative slice bound"),
+    ("C11", "break", ["C11-R2"], OP2, _GETKEY, "        triplet = self._fileh.read(8 + self._ibytes)\n        return self._Str.unpack(triplet[4:8])[0]\n", "_getkey: the key sliced out with a fixed width"),
+    ("C11", "break", ["C11-R4"], OP2, _GETKEY, "        triplet = self._fileh.read(4 + self._ibytes)\n        return self._Str.unpack(triplet[4:])[0]\n", "_getkey: one read that forgets the end marker"),
+    # ------------------------------------------------------------------ property, local function, lambda
+    ("C11", "neutral", [], OP2, _SKIPKEY, _SKIPKEY_PROP.replace("@SIZE@", "8 + self._ibytes"), "_skipkey: size of a key triplet as a property"),
+    ("C11", "break", ["C11-R4"], OP2, _SKIPKEY, _SKIPKEY_PROP.replace("@SIZE@", "12"), "_skipkey: property that assumes 4-byte keys"),
+    ("C11", "neutral", [], OP4, _DENSE_BIN_LOOP, _DENSE_BIN_LOCAL.replace("@MARK@", "            fp.read(4)\n"), "_rd_dense_binary: local function for the end of the record and the next head"),
+    ("C11", "break", ["C11-R4"], OP4, _DENSE_BIN_LOOP, _DENSE_BIN_LOCAL.replace("@MARK@", ""), "_rd_dense_binary (local function): end-of-record marker forgotten"),
+    ("C11", "neutral", [], OP4, _SKIPBIN_BODY, _SKIPBIN_LAMBDA.replace("@N@", "bi"), "_skipop4_binary: lambda that reads one integer"),
+    ("C11", "break", ["C11-R2"], OP4, _SKIPBIN_BODY, _SKIPBIN_LAMBDA.replace("@N@", "4"), "_skipop4_binary (lambda): column number read with 4 bytes whatever the key width"),
+    # ------------------------------------------------------------------ readers called in branches, chained comparison, starred arguments
+    ("C11", "neutral", [], OP4, _ASCII_CALL, _ASCII_DIRECT.replace("@DENSE@", "r > 0"), "_loadop4_ascii: the reader of the layout called in an if / elif chain"),
+    ("C11", "break", ["C11-R4"], OP4, _ASCII_CALL, _ASCII_DIRECT.replace("@DENSE@", "r >= 0"), "_loadop4_ascii (readers in branches): dense reader for row field 0"),
+    # ------------------------------------------------------------------ scan loop with continue; lines skipped through the file iterator
+    ("C11", "neutral", [], OP4, _BIN_SCAN, _BIN_SCAN_CONT.replace("@SKIP@", "                self._skipop4_binary(cols)\n"), "_loadop4_binary: early return / continue in the scan loop"),
+    ("C11", "break", ["C11-R5"], OP4, _BIN_SCAN, _BIN_SCAN_CONT.replace("@SKIP@", ""), "_loadop4_binary (continue): unrequested matrix not skipped"),
+    ("C11", "neutral", [], OP4, _SKIP_DENSE, _SKIP_DENSE.replace("for _ in it.repeat(None, nlines):\n                    self._fileh.readline()", "for _ in it.islice(self._fileh, nlines):\n                    pass"), "_skipop4_ascii (dense): lines skipped by exhausting a slice of the file"),
+    ("C11", "break", ["C11-R4"], OP4, _SKIP_DENSE, _SKIP_DENSE.replace("for _ in it.repeat(None, nlines):\n                    self._fileh.readline()", "for _ in it.islice(self._fileh, nlines + 1):\n                    pass"), "_skipop4_ascii (dense, islice): one line too many"),
+    # ------------------------------------------------------------------ fused record loops
+    ("C11", "neutral", [], OP2, _REC_LOOPS, _REC_FUSED.replace("@STEP@", "n"), "rdop2record: preallocated and list loops fused"),
+    ("C11", "break", ["C11-R6"], OP2, _REC_LOOPS, _REC_FUSED.replace("@STEP@", "key"), "rdop2record (fused loops): cursor advanced by the key"),
+    # ------------------------------------------------------------------ for over itertools.count / iter(f, sentinel)
+    ("C11", "neutral", [], OP4, "        icol = 1\n        bi = self._bytes_i\n        delta = 4 - bi\n        while icol <= cols:\n", "        bi = self._bytes_i\n        delta = 4 - bi\n        icol = 1\n        while True:\n            if not icol <= cols:\n                break\n", "_skipop4_binary: while True with the test as a guard"),
 ]
